@@ -1323,6 +1323,198 @@ class BlockwiseArg(Spec):
         return None
 
 
+class ExprLayer(Spec):
+    """Expr._layer (the default layer of every expression that only defines _task): exactly one task per output
+    partition, output i holding _task(i) - K1 (all outputs defined) and K3 (only own keys)."""
+
+    file, qualname, props = "dask_expr/_core.py", "Expr._layer", ["C09", "C06", "C14"]
+
+    def make_inputs(self, ex, sym, fr):
+        from vf.pyvc.spec import contract_fn
+
+        n = sym.int("npartitions", lo=0)
+        task = fresh_fun("task", z3.IntSort(), z3.IntSort())
+
+        @contract_fn
+        def _task(ex_, fr_, i):
+            return task(zint(i))
+
+        s = Obj("self", {"_name": NameStr("", "self"), "npartitions": n, "_task": _task}, cls=("Expr",))
+        return {"self": s, "n": n, "_task": lambda i, task=task: task(zint(i))}
+
+    def ensures(self):
+        own = lambda c, e: c.attr(e["self"], "_name")
+        return {
+            "K1-output-i-is-task-i": lambda c, e, r: c.forall(0, e["n"], lambda i: c.holds_at(r, (own(c, e), i), lambda v: c.eq(v, e["_task"](i)))),
+            "K3-only-own-keys": lambda c, e, r: c.forall_entries(r, lambda k, v: len(k) == 2 and c.And(c.eq(k[0], own(c, e)), k[1] >= 0, k[1] < e["n"])),
+        }
+
+    def concrete_inputs(self):
+        for n in (1, 2, 5):
+            yield {"n": n}
+
+    def concrete_env(self, inputs):
+        return None
+
+    def run_concrete(self, inputs):
+        import pandas as pd
+
+        import dask_expr as dx
+        from dask_expr._core import Expr
+
+        obj = (dx.from_pandas(pd.DataFrame({"x": range(10)}), npartitions=inputs["n"]) + 1).expr
+        return {"self": obj, "n": obj.npartitions, "_task": lambda i, obj=obj: obj._task(i)}, Expr._layer(obj)
+
+    def inputs_from_model(self, model, sz, sym):
+        return None
+
+
+class BlockwiseTask(Spec):
+    """Blockwise._task(index): the operation applied to the arguments _blockwise_arg(op, index) of ALL operands, in
+    operand order (as positional arguments, or through apply(...) with the keyword arguments)."""
+
+    file, qualname, props = "dask_expr/_expr.py", "Blockwise._task", ["C02", "C09", "C14", "C05"]
+    case = {"kwargs": False}
+
+    def cases(self):
+        return [{"kwargs": False}, {"kwargs": True}]
+
+    def make_inputs(self, ex, sym, fr):
+        from vf.pyvc.spec import contract_fn
+
+        ops = sym.seq("ops", kind="list")
+        index = sym.int("index")
+        BA = fresh_fun("blockwise_arg", z3.IntSort(), z3.IntSort(), z3.IntSort())
+
+        @contract_fn
+        def barg(ex_, fr_, op, i):
+            return BA(zint(op), zint(i))
+
+        kw = {"k": 1} if self.case["kwargs"] else {}
+        s = Obj("self", {"_args": ops, "_kwargs": kw, "operation": Opaque("self.operation"), "_blockwise_arg": barg}, cls=("Blockwise", "Expr"))
+        return {"self": s, "ops": ops, "index": index, "_BA": lambda op, i, BA=BA: BA(zint(op), zint(i)), "_kw": self.case["kwargs"]}
+
+    def ensures(self):
+        def shape(c, e, r):
+            n = c.len(e["ops"])
+            arg = lambda k: e["_BA"](c.at(e["ops"], k), e["index"])
+            if e["_kw"]:
+                return c.And(len(r) == 4, c.eq(r[0], c.fn("apply")), c.eq(r[1], c.attr(e["self"], "operation")), c.eq(r[3], c.attr(e["self"], "_kwargs")), c.eq(c.len(r[2]), n), c.forall(0, n, lambda k: c.eq(c.at(r[2], k), arg(k))))
+            return c.And(c.eq(c.len(r), n + 1), c.eq(c.at(r, 0), c.attr(e["self"], "operation")), c.forall(0, n, lambda k: c.eq(c.at(r, k + 1), arg(k))))
+
+        return {"operation-applied-to-every-operand-argument-in-order": shape}
+
+    def concrete_globals(self):
+        import dask_expr._expr as m
+
+        return vars(m)
+
+    def concrete_inputs(self):
+        for kw in (False, True):
+            for nops in (1, 2, 3):
+                yield {"kwargs": kw, "nops": nops, "index": 1}
+
+    def concrete_env(self, inputs):
+        return None
+
+    def run_concrete(self, inputs):
+        from dask_expr._expr import Blockwise
+
+        class _B:
+            operation = staticmethod(max)
+
+            def __init__(s, ops, kw):
+                s._args, s._kwargs = ops, kw
+
+            def _blockwise_arg(s, op, i):
+                return ("arg", op, i)
+
+        obj = _B(list(range(10, 10 + inputs["nops"])), {"k": 1} if inputs["kwargs"] else {})
+        r = Blockwise._task(obj, inputs["index"])
+        return {"self": obj, "ops": obj._args, "index": inputs["index"], "_BA": lambda op, i: ("arg", op, i), "_kw": inputs["kwargs"]}, r
+
+    def inputs_from_model(self, model, sz, sym):
+        return None
+
+
+class EnforceDivisionsTask(Spec):
+    """EnforceRuntimeDivisions._task(index): the run-time check of partition `index` is given that partition and ITS
+    bounds divisions[index], divisions[index + 1], and is told whether it is the last partition (whose upper bound is
+    inclusive)."""
+
+    file, qualname, props = "dask_expr/_expr.py", "EnforceRuntimeDivisions._task", ["C06"]
+
+    def make_inputs(self, ex, sym, fr):
+        from vf.pyvc.spec import contract_fn
+
+        ops = sym.seq("ops", kind="list")
+        n = sym.int("npartitions", lo=1)
+        divs = sym.seq("divs", kind="tuple")
+        index = sym.int("index")
+        BA = fresh_fun("blockwise_arg", z3.IntSort(), z3.IntSort(), z3.IntSort())
+
+        @contract_fn
+        def barg(ex_, fr_, op, i):
+            return BA(zint(op), zint(i))
+
+        s = Obj("self", {"_args": ops, "operation": Opaque("self.operation"), "_blockwise_arg": barg, "divisions": divs, "npartitions": n}, cls=("EnforceRuntimeDivisions", "Blockwise", "Expr"))
+        return {"self": s, "ops": ops, "index": index, "n": n, "divs": divs, "_BA": lambda op, i, BA=BA: BA(zint(op), zint(i))}
+
+    def requires(self):
+        return {"index-in-range": lambda c, e: c.And(e["index"] >= 0, e["index"] < e["n"]), "divisions-length": lambda c, e: c.eq(c.len(e["divs"]), e["n"] + 1)}
+
+    def ensures(self):
+        def shape(c, e, r):
+            m = c.len(e["ops"])
+            return c.And(
+                c.eq(c.len(r), m + 5), c.eq(c.at(r, 0), c.attr(e["self"], "operation")),
+                c.forall(0, m, lambda k: c.eq(c.at(r, k + 1), e["_BA"](c.at(e["ops"], k), e["index"]))),
+                c.eq(c.at(r, m + 1), e["index"]), c.eq(c.at(r, m + 2), c.at(e["divs"], e["index"])), c.eq(c.at(r, m + 3), c.at(e["divs"], e["index"] + 1)),
+            )
+
+        def last_flag(c, e, r):
+            m = c.len(e["ops"])
+            flag = c.at(r, m + 4)
+            return (c.truth(flag) == (e["index"] == e["n"] - 1)) if c.symbolic else (flag == (e["index"] == e["n"] - 1))
+
+        return {"partition-checked-against-its-own-bounds": shape, "last-partition-flag": last_flag}
+
+    def concrete_globals(self):
+        import dask_expr._expr as m
+
+        return vars(m)
+
+    def concrete_inputs(self):
+        for n in (1, 2, 4):
+            for index in range(n):
+                yield {"n": n, "index": index}
+
+    def concrete_env(self, inputs):
+        return None
+
+    def run_concrete(self, inputs):
+        from dask_expr._expr import EnforceRuntimeDivisions
+
+        class _B:
+            operation = staticmethod(max)
+
+            def __init__(s, n):
+                s._args, s.npartitions, s.divisions = [7], n, tuple(range(100, 100 + 10 * (n + 1), 10))
+
+            def _blockwise_arg(s, op, i):
+                return ("arg", op, i)
+
+        obj = _B(inputs["n"])
+        r = EnforceRuntimeDivisions._task(obj, inputs["index"])
+        return {"self": obj, "ops": obj._args, "index": inputs["index"], "n": inputs["n"], "divs": obj.divisions, "_BA": lambda op, i: ("arg", op, i)}, r
+
+    def inputs_from_model(self, model, sz, sym):
+        n, index = sym.read_int(model, "npartitions"), sym.read_int(model, "index")
+        if n is None or index is None or not (1 <= n <= 50 and 0 <= index < n):
+            return None
+        return {"n": n, "index": index}
+
+
 def _scenarios():
     out = []
     for how in ("inner", "left", "right", "leftsemi"):
@@ -1336,4 +1528,4 @@ def _scenarios():
     return out
 
 
-SPECS = [CumulativeFinalizeLayer(), FromGraphLayer(), MoreNSplits(), MoreDivisions(), MoreLayer(), SizeLayer(), SimpleShuffleLayer(), DiskShuffleLayer(), TreeReduceLayer(), TaskShuffleTail(), BroadcastDep(), BlockwiseArg()] + _scenarios()
+SPECS = [CumulativeFinalizeLayer(), FromGraphLayer(), MoreNSplits(), MoreDivisions(), MoreLayer(), SizeLayer(), SimpleShuffleLayer(), DiskShuffleLayer(), TreeReduceLayer(), TaskShuffleTail(), BroadcastDep(), BlockwiseArg(), BlockwiseTask(), EnforceDivisionsTask(), ExprLayer()] + _scenarios()
